@@ -419,6 +419,9 @@ class Builtins(OpsMixin, LoopsMixin):
             else:
                 yield p, VFunc("contract", c.qualname, c, self_val=v)
             return
+        if attr in ("__name__", "__qualname__", "__doc__"):
+            yield p, VStr(V.fresh("pyname", StrS))          # text used in messages only
+            return
         if attr.startswith("set_"):
             # configuration method of a library object without a contract: the object is updated in place to an
             # unknown state (sound over-approximation); anything a contract says about it afterwards must be re-proved
@@ -829,6 +832,8 @@ class Builtins(OpsMixin, LoopsMixin):
                 return self.OPAQUE_ITERABLE(v.t)
             elif isinstance(v, VOpaque) and nm == "np.ndarray":
                 return self.OPAQUE_NDARRAY(v.t)
+            elif isinstance(v, VOpaque) and nm.startswith("h5py."):
+                return z3.Function("opaque_isa_" + nm.replace(".", "_"), IntS, BoolS)(v.t)
             elif isinstance(v, VEnum) and nm == "Enum":
                 res = True
         return z3.BoolVal(res)
@@ -862,8 +867,14 @@ class Builtins(OpsMixin, LoopsMixin):
 
     SEQ_SAME_KIND = z3.Function("seq_same_python_class", Val, Val, BoolS)      # list vs tuple is not tracked in Val
 
+    INST_OF = z3.Function("py_isinstance", Val, Val, BoolS)
+
     def b_isinstance(self, ex, p, args, kwargs, node, f):
         carg = ex.deref(p, args[1])
+        if isinstance(carg, VDyn):
+            # the class is itself a value (e.g. a container's item class): an abstract instance-of predicate
+            yield p, VBool(self.INST_OF(box(ex.deref(p, args[0])), carg.t))
+            return
         if isinstance(carg, VClass) and tuple(carg.names) == ("?typeof",) and hasattr(carg, "of"):
             try:
                 yield p, VBool(self.same_class_cond(box(ex.deref(p, args[0])), carg.of))
